@@ -88,6 +88,12 @@ def stub_model(theta, N, seed):  # noqa: N803
     out[:d, 0] = theta
     out[d, 0] = N
     out[d + 1, 0] = seed
+    if STATE.get("model_mutates"):
+        # sloppy but legal user code: the model normalises / clamps its parameter argument in place after using it
+        try:
+            theta[...] = np.floor(theta)
+        except (TypeError, ValueError):
+            pass
     return out
 
 
@@ -133,8 +139,15 @@ def _mk_stub(name):
     from black_it.samplers.base import BaseSampler
 
     def sample_batch(self, batch_size, search_space, existing_points, existing_losses):
+        kb = STATE.get("batch_calls", 0)
+        STATE["batch_calls"] = kb + 1
+        if ("B", kb) in STATE["faults"]:
+            # a failure inside sample_batch itself (the documented extension point), possibly during a de-duplication redraw; for the model it is
+            # a failure of the sample() call it happens in
+            STATE["b_fault_sample_call"] = STATE["sampler_calls"] - 1
+            raise _fault("sampler")
         rows = self.script[self._vp_calls] if self._vp_calls < len(self.script) else []
-        rows = np.array(rows, dtype=float).reshape(-1, STATE["dims"])
+        rows = np.array(rows, dtype=float).reshape(-1, STATE["dims"])[:batch_size]
         if STATE.get("keep_buffers"):
             # a sampler that owns one array and rewrites it in place at every call (walkers moved with +=): what it returned earlier changes later
             buf = self.__dict__.get("_vp_buf")
@@ -227,6 +240,9 @@ class Scn:
     agent_opts: tuple = (-1.0, 0.1, 0.0)
     bounds: tuple = ((0.0,), (100.0,))
     precision: tuple = (0.5,)
+    dedup_passes: int = 0                           # max_deduplication_passes of the stub samplers (0: sample() returns what sample_batch proposed)
+    model_mutates: bool = False                     # the stub model overwrites its parameter argument in place after using it
+    alias_slots: tuple = ()                         # (i, j): slot i of the line-up holds the very same sampler object as slot j
     slow_policy_calls: tuple = ()                   # indices of the scripted agent's policy() calls that take 1.4 s
     fault_class: str | None = None                  # which exception class the injected failures have (see FAULT_CLASSES); None: fault_base decides
     keep_buffers: bool = False                      # stub samplers return one array of their own and rewrite it in place at every call
@@ -306,6 +322,7 @@ def build_samplers(lineup, next_obj):
             s = make_builtin(ci, bs, script if isinstance(script, dict) else SMALL_OPTS.get(ci), cseed)
         else:
             s = stub_classes()[ci](bs, [list(map(list, call)) for call in script], random_state=cseed)
+            s.max_deduplication_passes = int(STATE.get("dedup_passes", 0))
         s._vp_obj = next_obj[0]
         s._vp_calls = 0
         next_obj[0] += 1
@@ -371,9 +388,9 @@ def run_real(scn: Scn, model=None):
     from black_it.schedulers.rl.rl_scheduler import RLScheduler
     from black_it.schedulers.round_robin import RoundRobinScheduler
 
-    STATE.update(model_calls=0, loss_calls=0, sampler_calls=0, faults=set(map(tuple, scn.faults)), dims=scn.dims,
+    STATE.update(model_calls=0, loss_calls=0, sampler_calls=0, batch_calls=0, b_fault_sample_call=None, faults=set(map(tuple, scn.faults)), dims=scn.dims,
                  loss_table={tuple(f2h(x) for x in k): v for k, v in scn.loss_table.items()}, loss_default=scn.loss_default,
-                 loss_fn=scn.loss_fn, loss_seen={}, real_args=set(), fault_base=bool(getattr(scn, "fault_base", False)), keep_buffers=bool(getattr(scn, "keep_buffers", False)), fault_class=getattr(scn, "fault_class", None))
+                 loss_fn=scn.loss_fn, loss_seen={}, real_args=set(), fault_base=bool(getattr(scn, "fault_base", False)), keep_buffers=bool(getattr(scn, "keep_buffers", False)), fault_class=getattr(scn, "fault_class", None), dedup_passes=int(getattr(scn, "dedup_passes", 0)), model_mutates=bool(getattr(scn, "model_mutates", False)))
     next_obj = [0]
     folder = (scn.use_folder or tempfile.mkdtemp(prefix="vpcal")) if (scn.folder or any(o[0] in ("K", "R") for o in scn.ops)) else None
     lines, info = [], {"returns": [], "exc": [], "lineups": []}
@@ -488,7 +505,8 @@ def run_real(scn: Scn, model=None):
                     info["lineups"].append(ss)
                     cal.set_scheduler(RoundRobinScheduler(ss))
                     lines.append("ok " + dump(cal, scn))
-            info.update(cal=cal, rec=rec, actions=consumed_actions, agent=agent, folder=folder, stdout=buf.getvalue())
+            info.update(cal=cal, rec=rec, actions=consumed_actions, agent=agent, folder=folder, stdout=buf.getvalue(), b_fault_sample_call=STATE.get("b_fault_sample_call"),
+                        batch_calls=STATE.get("batch_calls", 0))
     finally:
         RLScheduler.get_next_sampler = orig_get
         Calibrator._set_samplers_seeds = orig_seed
@@ -583,7 +601,8 @@ def lean_request(scn: Scn, info) -> str:
             str(scn.dims), lu, sched,
             f"{len(tape)} " + " ".join(map(str, tape)),
             f"{len(info['actions'])} " + " ".join(map(str, info["actions"])) if info["actions"] else "0",
-            f"{len(scn.faults)} " + " ".join(f"{k} {i}" for k, i in scn.faults) if scn.faults else "0",
+            (lambda fl_: f"{len(fl_)} " + " ".join(f"{k} {i}" for k, i in fl_) if fl_ else "0")(
+                [(k, i) for k, i in scn.faults if k != "B"] + ([("S", info["b_fault_sample_call"])] if info.get("b_fault_sample_call") is not None else [])),
             f"{nobj} " + " ".join(scripts) if nobj else "0",
             f"{n_lt} " + lt_toks if n_lt else "0",
             f2h(scn.loss_default),
